@@ -1,6 +1,7 @@
 import Proofs.C04
 import Proofs.C04.Part
 import Proofs.C04.Retention
+import Proofs.C04.Learn
 /-!
 # C04 — removed entries stay removed: tombstones block resurrection and are never shown
 
@@ -57,33 +58,62 @@ theorem inflight_le_clock (hU : Univ U) (hT : TombClosed U) {cfg : Cfg} (hcfg : 
 
 /-- **no resurrection, over unbounded histories**: once node `i` holds the tombstone `x@t`, after ANY
 further events (deliveries of any message in any order any number of times, full-state exchanges,
-local updates, loss, clock ticks; no restart of the cluster's nodes) `x` is either still a tombstone
+local updates, loss, clock ticks, restarts of OTHER nodes; no restart of node `i` itself) `x` is either still a tombstone
 there or carries a timestamp > `t` (i.e. it was written after the removal) -/
 theorem hist_no_resurrection (hU : Univ U) (hT : TombClosed U) {cfg : Cfg} (hcfg : cfg.lit = 0) (es : List (Event Desc))
-    {c : Cluster Desc} (hinv : Inv U c) (hes : GoodRun U cfg c es) (hnr : ∀ e ∈ es, notRestart e) (i : Nat) (key x : String)
+    {c : Cluster Desc} (hinv : Inv U c) (hes : GoodRun U cfg c es) (i : Nat) (hnr : ∀ e ∈ es, notRestartOf i e) (key x : String)
     (e : Inst) (he : get? (nval c i key) x = some e) (hleft : e.state = .LEFT) (e' : Inst)
     (he' : get? (nval (runC cfg c es) i key) x = some e') : e'.state = .LEFT ∨ e'.ts > e.ts :=
-  no_resurrection hU hT hcfg es hinv hes hnr i key x e he hleft e' he'
+  no_resurrection hU hT hcfg es hinv hes i hnr key x e he hleft e' he'
 
-/-- readers: `KV.get` returns the stored value minus ALL tombstones ... -/
-theorem strip_hides (d : Desc) (e : Inst) : e ∈ removeTombstones none d ↔ e ∈ d ∧ e.state ≠ .LEFT := strip_mem d e
+/-! ### every replica that learns of the removal stops showing the entry, and forwards the tombstone -/
 
-/-- ... so neither `Get` / the input of a CAS function ... -/
+/-- **learns ⇒ hides** (node level): a gossip message carrying the tombstone `x@t` reaches a node whose entry
+for `x`, if any, is not newer (same second included; also when the node has no value for the key at all —
+the first-value path): afterwards no reader of that node (`KV.Get`, CAS input) is shown `x` -/
+theorem learn_hides (hU : Univ U) {cfg : Cfg} (hcfg : cfg.lit = 0) {clock : Int} (now : Int) {nd : Node Desc} {m : Msg Desc}
+    (hnd : GoodNode U clock nd) (hm : GoodMsg U clock m) (hk : m.key ≠ "") (x : String) (e : Inst)
+    (he : get? m.val x = some e) (hleft : e.state = .LEFT)
+    (hold : ∀ cur, get? (sval nd.store m.key) x = some cur → cur.ts ≤ e.ts) :
+    ∀ v, ((notifyMsg cfg now nd m).get m.key).1 = some v → ∀ y ∈ v, y.id ≠ x :=
+  PfC04.learn_hides hU hcfg now hnd hm hk x e he hleft hold
+
+/-- **learns ⇒ forwards**: if the tombstone is news to the receiving node (its entry for `x` is strictly older
+in the (timestamp, tombstone) order, or it has none) the node queues a broadcast carrying the tombstone;
+together with `removal_forwarded` (originating node) tombstones travel like any other change -/
+theorem deliver_tombstone_requeued (hU : Univ U) {cfg : Cfg} (hcfg : cfg.lit = 0) {clock : Int} (now : Int) {nd : Node Desc}
+    {m : Msg Desc} (hnd : GoodNode U clock nd) (hm : GoodMsg U clock m) (x : String) (e : Inst)
+    (he : get? m.val x = some e) (hnew : rkO (get? (sval nd.store m.key) x) < rk e) :
+    ∃ b ∈ (deliver cfg now nd m).gossipQ, b.key = m.key ∧ get? b.change x = some e :=
+  PfC04.deliver_tombstone_requeued hU hcfg now hnd hm x e he hnew
+
+-- non-vacuity (evaluation): node holds a@9 and b@9; the tombstone a@10 arrives: readers see only b, and the
+-- tombstone is queued for further gossip; a node WITHOUT the key (first value) stores and queues it too
+example :
+    let nd : Node Desc := { store := [("r", { val := [{ id := "a", ts := 9 }, { id := "b", ts := 9 }], version := 1 })] }
+    let m : Msg Desc := { key := "r", val := [{ id := "a", ts := 10, state := .LEFT }] }
+    ((deliver {} 10 nd m).get "r").1 = some [{ id := "b", ts := 9 }] ∧
+    (deliver {} 10 nd m).gossipQ.map (·.change) = [[{ id := "a", ts := 10, state := .LEFT }]] ∧
+    ((deliver {} 10 ({} : Node Desc) m).get "r").1 = some [] ∧
+    (deliver {} 10 ({} : Node Desc) m).gossipQ.map (·.change) = [[{ id := "a", ts := 10, state := .LEFT }]] := by decide
+
+/-! ### readers and watchers never see a tombstone
+
+`Node.get` (the model of `KV.get`: clone + `RemoveTombstones(time.Time{})`) strips every tombstone by
+construction — that the real `Get` / `WatchKey` / `WatchPrefix` do so is what the correspondence run
+checks; the definitional unfoldings (`strip_mem`, `gc_mem`, `localState_carries`, `pstrip_mem`) are model
+sanity lemmas in `Proofs/C04.lean`, not property theorems. -/
+
+/-- `Get` / the input of a CAS function never contains a tombstone (any node, any state) -/
 theorem reader_never_sees (nd : Node Desc) (key : String) (v : Desc) (h : (nd.get key).1 = some v) :
     ∀ e ∈ v, e.state ≠ .LEFT := node_get_no_tomb nd key v h
 
-/-- ... nor any watcher callback ever contains a tombstone -/
-theorem watcher_never_sees (st : Store Desc) (w : Watcher Desc)
-    (hw : ∀ k v, (k, v) ∈ w.last → ∀ e ∈ v, e.state ≠ .LEFT) :
-    ∀ k v, (k, v) ∈ (w.run st).last → ∀ e ∈ v, e.state ≠ .LEFT := watcher_run_no_tomb st w hw
-
-/-- retention: collection removes exactly the tombstones older than the limit -/
-theorem gc_only_old (l : Int) (d : Desc) (e : Inst) :
-    e ∈ removeTombstones (some l) d ↔ e ∈ d ∧ ¬ (e.state = .LEFT ∧ e.ts < l) := gc_mem l d e
-
-/-- the full-state message carries every stored value as it is, tombstones included -/
-theorem localstate_carries {V : Type} (nd : Node V) (k : String) (e : Entry V) (h : (k, e) ∈ nd.store) :
-    ∃ m ∈ localState nd, m.key = k ∧ m.val = e.val ∧ m.deleted = e.deleted := localState_carries nd k e h
+/-- in EVERY state reachable from the initial cluster — any configuration (retention on or off), any schedule
+of any events, no proviso on the workloads — no watcher function has been called with a value containing a
+tombstone (`w.last` = the values the callbacks were last called with, per key) -/
+theorem watchers_never_see_tombstones (cfg : Cfg) (n : Nat) (clock : Int) (evs : List (Event Desc)) :
+    ∀ nd ∈ (runC cfg (initC n clock) evs).nodes, ∀ w ∈ nd.watchers, ∀ k v, (k, v) ∈ w.last → ∀ e ∈ v, e.state ≠ .LEFT :=
+  PfC04.watchers_never_see_tombstones cfg n clock evs
 
 /-! ### histories in which the retention IS reached (`LeftIngestersTimeout = lit > 0`, tombstones collected)
 
@@ -103,13 +133,15 @@ visible — afterwards `x` is that tombstone or has been collected — and the t
 theorem tombstone_blocks_retention (hU : Univ U) (lit now : Int) {s m : Desc} (hs : Drawn U s) (hm : Drawn U m) (x : String)
     (e : Inst) (he : get? s x = some e) (hleft : e.state = .LEFT) (hold : ∀ e', get? m x = some e' → e'.ts ≤ e.ts) :
     (∀ e', get? (deliverVal lit now s m) x = some e' → e' = e) ∧
-    (e.ts ≥ now - lit → get? (deliverVal lit now s m) x = some e) :=
+    (e.ts ≥ now + 1 - lit → get? (deliverVal lit now s m) x = some e) :=
   PfC04.tombstone_blocks_retention hU lit now hs hm x e he hleft hold
 
-/-- **no resurrection when the retention is reached**, over unbounded delivery sequences at non-decreasing
-clocks with collection along the way. Proviso `NoStale` = "no in-flight message older than the retention":
-a delivered live entry of `x` that predates the removal (`ts ≤ t`) is not older than `now - lit` when it
-is delivered. Then `x` never becomes visible with a timestamp `≤ t`. (After the tombstone was collected,
+/-- **no resurrection when the retention is reached** — value level: unbounded DELIVERY sequences (gossip
+messages and full-state pairs, any order, any multiplicity) to ONE replica's value of one key, at
+non-decreasing clocks, with collection along the way (no local CAS of that node, no key-level Delete in
+between; the cluster-level invariant is proved for `lit = 0` only: `hist_no_resurrection`). Proviso `NoStale` = "no in-flight message older than the retention":
+a delivered live entry of `x` that predates the removal (`ts ≤ t`) has a timestamp `> now − lit` when it
+is delivered (`Cfg.limit`: Go collects `ts ≤ floor(now) − lit`). Then `x` never becomes visible with a timestamp `≤ t`. (After the tombstone was collected,
 at some clock `> t + lit`, every entry produced before the removal IS older than the retention: the
 proviso then says such messages are no longer in flight.) -/
 theorem hist_no_resurrection_retention (hU : Univ U) {lit t : Int} (x : String) (ds : List (Int × Desc)) {clock : Int} {s : Desc}
@@ -117,6 +149,20 @@ theorem hist_no_resurrection_retention (hU : Univ U) {lit t : Int} (x : String) 
     (hclk : List.Pairwise (· ≤ ·) (clock :: ds.map (·.1))) (hds : ∀ p ∈ ds, Drawn U p.2 ∧ NoStale lit t x p.1 p.2) :
     ∀ e, get? (deliverSeq lit s ds) x = some e → e.state = .LEFT ∨ e.ts > t :=
   no_resurrection_retention hU x ds hs (removed_of_tombstone x clock e0 he0 hleft hts) hclk hds
+
+/-- the first-value path with retention: a node without a value for the key stores the message's value minus
+the tombstones already older than the retention -/
+theorem retention_first_value {cfg : Cfg} (hlit : cfg.lit > 0) (now : Int) {nd : Node Desc} {m : Msg Desc}
+    (hg : getE nd.store m.key = none) (hmd : m.deleted = false) :
+    sval (deliver cfg now nd m).store m.key = removeTombstones (some (now + 1 - cfg.lit)) m.val :=
+  deliver_sval_gc_first hlit now hg hmd
+
+/-- **discarded only once older than the retention**: if a delivery makes the tombstone `x@t` vanish from the
+stored value, then `t ≤ now − lit` (otherwise it can only be replaced by a newer entry of `x`) -/
+theorem collected_only_when_old (hU : Univ U) (lit now : Int) {s m : Desc} (hs : Drawn U s) (hm : Drawn U m) (x : String)
+    (e : Inst) (he : get? s x = some e) (hleft : e.state = .LEFT) (hgone : get? (deliverVal lit now s m) x = none) :
+    e.ts < now + 1 - lit :=
+  PfC04.collected_only_when_old hU lit now hs hm x e he hleft hgone
 
 /-- the proviso is needed (witness, retention 2 s): the tombstone `a@5` is collected at clock 100 by an
 unrelated change; the heartbeat `a@4`, produced before the removal and far older than the retention,
@@ -132,7 +178,7 @@ example : deliverSeq 300 [{ id := "a", ts := 10, state := .LEFT }]
     [(11, [{ id := "a", ts := 10 }]), (12, [{ id := "b", ts := 12 }]), (400, [{ id := "a", ts := 10 }])] =
     [{ id := "a", ts := 10, state := .LEFT }, { id := "b", ts := 12 }] := by decide
 
-/-! ### partition ring (entry-level rules of `PartitionRingDesc.mergeWithTime`) -/
+/-! ### partition ring: the per-entry acceptance rules of `PartitionRingDesc.mergeWithTime` (`mergePart`, `ownerAccept`) -/
 open C03P in
 theorem partition_tombstone_blocks (t o : Part) (ht : t.state = partDeleted) (h1 : o.stateTs ≤ t.stateTs)
     (h2 : o.lockedTs ≤ t.lockedTs) : mergePart (some t) o = none := mergePart_tomb_blocks t o ht h1 h2
@@ -140,25 +186,6 @@ theorem partition_tombstone_blocks (t o : Part) (ht : t.state = partDeleted) (h1
 open C03P in
 theorem owner_tombstone_blocks (t o : Owner) (ht : t.state = ownerDeleted) (h : o.ts ≤ t.ts) :
     ownerAccept (some t) o = false := ownerAccept_tomb_blocks t o ht h
-
-open C03P in
-theorem partition_removal_stamp (other : PDesc) (now : Int) (acc : C03P.Acc) (t : Part) (h1 : getP other.parts t.id = none)
-    (h2 : t.state ≠ partDeleted) :
-    (casPart other now acc t).this.parts = upsertP { t with state := partDeleted, stateTs := now } acc.this.parts ∧
-    (casPart other now acc t).chP = upsertP { t with state := partDeleted, stateTs := now } acc.chP :=
-  casPart_stamp other now acc t h1 h2
-
-open C03P in
-theorem owner_removal_stamp (other : PDesc) (now : Int) (acc : C03P.Acc) (t : Owner) (h1 : getO other.owners t.id = none)
-    (h2 : t.state ≠ ownerDeleted) :
-    (casOwner other now acc t).this.owners = upsertO { t with state := ownerDeleted, ts := now } acc.this.owners ∧
-    (casOwner other now acc t).chO = upsertO { t with state := ownerDeleted, ts := now } acc.chO :=
-  casOwner_stamp other now acc t h1 h2
-
-open C03P in
-theorem partition_strip_hides (d : PDesc) :
-    (∀ p ∈ (C03P.removeTombstones none d).parts, p.state ≠ partDeleted) ∧
-    (∀ o ∈ (C03P.removeTombstones none d).owners, o.state ≠ ownerDeleted) := pstrip_mem d
 
 /-! ### partition ring, descriptor level -/
 open C03P in
@@ -195,10 +222,37 @@ theorem partition_removal_stamp_desc (now : Int) (a b : PDesc) (ha : (a.parts.ma
     getP (C03P.merge true now a b).state.parts t.id = some { t with state := partDeleted, stateTs := now } :=
   part_removal_stamp now a b ha hb t ht hlive hmiss
 
+open C03P in
+/-- … and reported in the change of that local update (so it is forwarded) -/
+theorem partition_removal_reported (now : Int) (a b : PDesc) (ha : (a.parts.map Part.id).Nodup) (hb : PfC03P.WF b) (t : Part)
+    (ht : getP a.parts t.id = some t) (hlive : t.state ≠ partDeleted) (hmiss : getP b.parts t.id = none) :
+    ∃ ch, (C03P.merge true now a b).change = some ch ∧
+      getP ch.parts t.id = some { t with state := partDeleted, stateTs := now } :=
+  part_removal_in_change now a b ha hb t ht hlive hmiss
+
+open C03P in
+/-- an owner missing from a local update's result is stored as deleted with timestamp `now` -/
+theorem owner_removal_stamp_desc (now : Int) (a b : PDesc) (ha : PfC03P.WF a) (hb : PfC03P.WF b) (t : Owner)
+    (ht : getO a.owners t.id = some t) (hlive : t.state ≠ ownerDeleted) (hmiss : getO b.owners t.id = none) :
+    getO (C03P.merge true now a b).state.owners t.id = some { t with state := ownerDeleted, ts := now } :=
+  owner_removal_stamp_desc' now a b ha hb t ht hlive hmiss
+
 -- non-vacuity: partition 1 (active@9) removed at 10; the in-flight entry active@10 does not bring it back
 example : (C03P.mergeState (C03P.merge true 10 { parts := [{ id := 1, tokens := [5], state := 2, stateTs := 9 }] } {}).state
     { parts := [{ id := 1, tokens := [5], state := 2, stateTs := 10 }] }).parts =
     [{ id := 1, tokens := [5], state := C03P.partDeleted, stateTs := 10 }] := by decide
+
+/-! ### Outside the theorems: key-level `Delete` + `cleanupObsoleteEntries` (witness)
+`KV.Delete` marks a key deleted; after `ObsoleteEntriesTimeout` the obsolete-entries ticker removes the key from
+the store — with every tombstone its value held. A delayed message produced before the removal is then stored
+verbatim by the first-value path: the entry is visible again. (`Event.delete` / `Event.cleanup` exist in the
+model and in the correspondence run; they are excluded from the theorems by `GoodEv`.) -/
+theorem cleanup_forgets_tombstones_witness :
+    let cfg : Cfg := { obs := -1 }
+    let nd0 : Node Desc := { store := [("r", { val := [{ id := "a", ts := 5, state := .LEFT }], version := 2 })] }
+    let nd1 := cleanupObsolete cfg 10000 (C06.delete cfg 10 9000 nd0 "r")
+    let nd2 := deliver cfg 10 nd1 { key := "r", val := [{ id := "a", ts := 4 }] }
+    nd1.store = [] ∧ (nd2.get "r").1 = some [{ id := "a", ts := 4 }] := by decide
 
 /-! ### Why the clock proviso is needed (witness, checked by evaluation)
 A heartbeat stamped ABOVE the remover's clock (writer's clock ahead) survives the removal: the
